@@ -8,7 +8,8 @@ namespace Ekit.Gen.SkelC09, i.e. generic("C09", ..., skel=[... + SKEL]) (duplica
 harmless: `queue/delay_queue.go:cond` is contained in the DelayQueue share's `queue/delay_queue.go`)."""
 from checklib import steps
 
-CORRS = [dict(harness="bqueue", area="bqueuewake", name="bqueue-wake")]
+CORRS = [dict(harness="bqueue", area="bqueuewake", name="bqueue-wake"),
+         dict(harness="evtrace", area="evtrace", name="evtrace-bq", evinst=True, gen_args=["-targets", "abq,lbq"])]
 SKEL = ["queue/concurrent_array_blocking_queue.go", "queue/concurrent_linked_blocking_queue.go", "queue/delay_queue.go:cond"]
 
 
